@@ -430,7 +430,37 @@ func checkC08(c *Ctx) {
 			}
 		}
 		if ca == nil || cr == nil {
-			c.Fail("R3", "controller applies both lists", handle.Pos(), "the controller does not apply both the Added and the Removed list of an endpoint event")
+			// the lists reach the processor through a filter?
+			filtered := false
+			for _, hf := range append([]*ssa.Function{handle}, staticCalleesDeep(handle, 2)...) {
+				if hf.Blocks == nil || hf.Pkg != handle.Pkg {
+					continue
+				}
+				eachInstr(hf, func(_ *ssa.BasicBlock, _ int, in ssa.Instruction) {
+					call, ok := in.(*ssa.Call)
+					if !ok {
+						return
+					}
+					g := calleeFn(call.Common())
+					if g == nil || !isModFn(g) || g.Signature.Results().Len() == 0 {
+						return
+					}
+					for _, a := range call.Call.Args {
+						if f, _ := loadedField(a); f != nil && strings.HasSuffix(ownerOf(p, f), "SvcEndpointEvent") && (f.Name() == "Added" || f.Name() == "Removed") {
+							filtered = true
+						}
+					}
+				})
+			}
+			if filtered {
+				c.Fail("R3", "controller applies both lists", handle.Pos(), "the controller passes the Added/Removed lists of an endpoint event through a function before applying them: the store has already applied the update as it is (an address in both lists was removed and re-added, e.g. with another type), so whatever the controller drops or reorders leaves the processor different from the store for good")
+			} else {
+				c.Fail("R3", "controller applies both lists", handle.Pos(), "the controller does not apply both the Added and the Removed list of an endpoint event")
+			}
+			return
+		}
+		if ca == cr {
+			c.Fail("R3", "controller applies both lists", ca.Pos(), "the controller passes the Added and Removed lists of an endpoint event through one function before applying them: the store has already applied the update as it is (an address in both lists was removed and re-added, e.g. with another type), so whatever the controller drops or reorders leaves the processor different from the store for good")
 			return
 		}
 		ctlOrder := ""
@@ -772,6 +802,8 @@ func checkC08(c *Ctx) {
 	checkEventsCarryEndpoints(c, "R11", evtCh)
 	c.Rule("R12", "the stored endpoint list shares its array with queued add events: no nil is stored into one of its slots")
 	checkSharedEndpointArray(c, "R12")
+	c.Rule("R13", "the store looks a service up and applies an update to it under one acquisition of its write lock")
+	checkLookupAndApplyAtomic(c, "R13")
 }
 
 // checkLiveConfig (C08.R9, C13.R9): a running Redis processor applies a configuration update by updating the one
@@ -891,7 +923,7 @@ func checkEventsCarryEndpoints(c *Ctx, rule string, evtCh *types.Var) {
 						}
 					}
 				case *ssa.Return: // a constructor hands the event to its caller
-					for _, r := range y.Results {
+					for _, r := range returnedValues(y) {
 						if derives(r, func(v ssa.Value) bool { return v == ssa.Value(al) }) {
 							return true
 						}
@@ -1025,4 +1057,111 @@ func checkSharedEndpointArray(c *Ctx, rule string) {
 		}
 		c.OK(rule, "no nil stored into the shared endpoint array", token.NoPos, fmt.Sprintf("%s; %d element stores into the stored list examined, none stores nil", what, nst))
 	}
+}
+
+// checkLookupAndApplyAtomic (C08.R13): the store's handlers decide "is this service still known" and apply the update in
+// one critical section. A wrapper looked up under one lock acquisition and mutated (and announced) under a later one can
+// have been removed in between - the update is then announced for a service whose removal was already announced, the
+// controller builds a processor that nothing ever stops, and a later re-add of the service is ignored.
+func checkLookupAndApplyAtomic(c *Ctx, rule string) {
+	p := c.P
+	sws := p.Field(configPkg, "Config", "sws")
+	if sws == nil {
+		c.Unresolved(rule, "Config.sws")
+		return
+	}
+	var cfgMu *types.Var
+	if nt := p.Named(configPkg, "Config"); nt != nil {
+		if st, ok := nt.Underlying().(*types.Struct); ok {
+			for i := 0; i < st.NumFields(); i++ {
+				if ts := types.TypeString(st.Field(i).Type(), nil); ts == "sync.RWMutex" || ts == "sync.Mutex" {
+					cfgMu = st.Field(i)
+				}
+			}
+		}
+	}
+	if cfgMu == nil {
+		c.Unresolved(rule, "mutex of config.Config")
+		return
+	}
+	le := newLockEngine(p, configPkg)
+	isSwsLookup := func(v ssa.Value) bool {
+		lk, ok := v.(*ssa.Lookup)
+		if !ok {
+			return false
+		}
+		f, _ := chanOrMapField(lk.X)
+		return f == sws
+	}
+	n := 0
+	for _, fn := range p.FuncsIn(configPkg) {
+		if p.isTestFn(fn) {
+			continue
+		}
+		seenBase := map[ssa.Value]bool{}
+		eachInstr(fn, func(_ *ssa.BasicBlock, _ int, in ssa.Instruction) {
+			st, ok := in.(*ssa.Store)
+			if !ok {
+				return
+			}
+			f, base := fieldAddr(st.Addr)
+			if f == nil || !strings.HasSuffix(ownerOf(p, f), "serviceWrapper") || isFreshAlloc(base) || seenBase[base] {
+				return
+			}
+			// the wrapper comes out of the table
+			var lookupAt ssa.Instruction
+			viaHelper := false
+			derives(base, func(v ssa.Value) bool {
+				if isSwsLookup(v) {
+					lookupAt = v.(ssa.Instruction)
+					return true
+				}
+				if call, ok := v.(*ssa.Call); ok {
+					if g := calleeFn(call.Common()); g != nil && isModFn(g) && g.Blocks != nil {
+						found := false
+						eachInstr(g, func(_ *ssa.BasicBlock, _ int, x ssa.Instruction) {
+							if xv, ok := x.(ssa.Value); ok && isSwsLookup(xv) {
+								found = true
+							}
+						})
+						if found {
+							lookupAt, viaHelper = call, true
+							return true
+						}
+					}
+				}
+				return false
+			})
+			if lookupAt == nil {
+				return
+			}
+			seenBase[base] = true
+			n++
+			site := fmt.Sprintf("%s looks the service up and applies the update in one critical section (#%d)", fnKey(fn), n)
+			okCS := le.heldAt(lookupAt)[cfgMu] == lockWrite && le.heldAt(in)[cfgMu] == lockWrite
+			if okCS {
+				// no unlock between the lookup and the store
+				if findPath(posOf(lookupAt), pathQuery{target: func(x ssa.Instruction) bool { return x == in }, avoid: func(x ssa.Instruction) bool {
+					_, op := mutexOp(x)
+					_, isDefer := x.(*ssa.Defer)
+					return !isDefer && (op == "Unlock" || op == "RUnlock")
+				}}) == nil {
+					okCS = false
+				}
+			}
+			why := "the wrapper is looked up and mutated under separate acquisitions of the store's lock"
+			if viaHelper && !okCS {
+				why = "the wrapper is looked up by a helper under its own lock acquisition and mutated later under another one"
+			}
+			c.Check(okCS, rule, site, st.Pos(), "lookup and stores under one write-lock acquisition", why+": a removal of the service that lands in between announces the removal first and this update afterwards - the controller then builds a processor for a service that no longer exists, nothing ever stops it, and a later re-add of the service is ignored because a processor exists")
+		})
+	}
+	if n == 0 {
+		c.Unresolved(rule, "no handler that mutates a service wrapper taken from the table")
+	}
+}
+
+// chanOrMapField: the field a map (or channel) value was loaded from.
+func chanOrMapField(v ssa.Value) (*types.Var, ssa.Value) {
+	return loadedField(v)
 }
